@@ -7,6 +7,13 @@ Discrete model of the registration of orbit-attached frames (beyond/frames/frame
 A name is bound to an orientation tag and a reference orbit (an id here).  Registering a name again
 rebinds it; a conversion reads the binding current at the time of the call and leaves the registry
 unchanged: nothing computed for an earlier binding or an earlier conversion may survive.
+
+One thing does survive in the code as it is (open finding C17-reregistered-under-other-parent): every registration with a
+local orientation adds a node called `name` to the graph of orientations, linked to the orientation of its `parent`
+argument, and nothing ever removes it.  A conversion *into* the frame looks the name up in that graph from the orientation
+of the state being converted and reaches the nearest node of that name: an earlier registration under a nearer parent
+wins over the latest one (`lookupInto`).  The origin (the `Center` link, always re-attached to the same centre) and
+conversions *out of* the frame use the latest registration (`lookup`).
 -/
 namespace BeyondVerif.FrameReg
 
@@ -14,6 +21,9 @@ namespace BeyondVerif.FrameReg
 structure Entry where
   tag : String
   orbit : Nat
+  /-- number of orientation links between the `parent` the frame was attached to and the orientation of the states that
+  are converted into it (0 when both are EME2000, the default) -/
+  pdist : Nat := 0
   deriving DecidableEq, Repr
 
 abbrev Reg := List (String × Entry)
@@ -25,6 +35,23 @@ def register (r : Reg) (name : String) (e : Entry) : Reg := (name, e) :: r
 def lookup : Reg → String → Option Entry
   | [], _ => none
   | (n, e) :: rest, name => if n = name then some e else lookup rest name
+
+/-- the registration whose *axes* a conversion into `name` uses: the latest one when it keeps the axes of its parent
+(tag "-": no node is added); otherwise, among the registrations of `name` that added a node, the one attached nearest
+(the latest of those) -/
+def nearest : Reg → String → Option Entry
+  | [], _ => none
+  | (n, e) :: rest, name =>
+    if n = name ∧ e.tag ≠ "-" then
+      match nearest rest name with
+      | some e' => if e'.pdist < e.pdist then some e' else some e
+      | none => some e
+    else nearest rest name
+
+def lookupInto (r : Reg) (name : String) : Option Entry :=
+  match lookup r name with
+  | some e => if e.tag = "-" then some e else nearest r name
+  | none => none
 
 inductive Op where
   | reg (name : String) (e : Entry)
@@ -41,5 +68,53 @@ def run : Reg → List Op → List (Option Entry)
   | _, [] => []
   | r, Op.reg n e :: ops => run (register r n e) ops
   | r, Op.conv n :: ops => lookup r n :: run r ops
+
+/-- the registration whose axes each conversion of a sequence uses when it goes *into* the frame -/
+def runInto : Reg → List Op → List (Option Entry)
+  | _, [] => []
+  | r, Op.reg n e :: ops => runInto (register r n e) ops
+  | r, Op.conv n :: ops => lookupInto r n :: runInto r ops
+
+/-! ### The reference objects
+
+`orbit2frame(name, ref, …)` keeps a *reference to* `ref` (an `Orbit` with a propagator, an `Ephem`, or a plain
+`StateVector`; expressed in the parent frame or in any other one): `Center.offset` and
+`LocalOrbitalOrientation.statevector` are that very object.  A conversion reads it (`propagate(date)` when it has
+one, then `.copy(form="cartesian", frame=…)`) and must not write to it.  The world of a session is the registry plus
+the store of reference objects as the conversions can observe them; no operation has a case that writes to the store. -/
+
+/-- a reference object as a conversion observes it: its class, the frame and form it is expressed in and its six
+coordinates (bit patterns of the doubles) -/
+structure RefObj where
+  kind : String
+  frame : String
+  form : String
+  coords : List Nat
+  deriving DecidableEq, Repr
+
+structure World where
+  reg : Reg
+  refs : List RefObj
+
+/-- what a conversion through `name` reads: the binding and the reference object bound -/
+def readConv (w : World) (name : String) : Option (Entry × Option RefObj) :=
+  (lookup w.reg name).map (fun e => (e, w.refs[e.orbit]?))
+
+/-- one operation of a session -/
+def stepW (w : World) : Op → World × Option (Option (Entry × Option RefObj))
+  | Op.reg n e => ({ w with reg := register w.reg n e }, none)
+  | Op.conv n => (w, some (readConv w n))
+
+/-- world after a session -/
+def stateW : World → List Op → World
+  | w, [] => w
+  | w, o :: ops => stateW (stepW w o).1 ops
+
+/-- what each conversion of a session reads, in order -/
+def runW : World → List Op → List (Option (Entry × Option RefObj))
+  | _, [] => []
+  | w, o :: ops => match (stepW w o).2 with
+    | some r => r :: runW (stepW w o).1 ops
+    | none => runW (stepW w o).1 ops
 
 end BeyondVerif.FrameReg
